@@ -3,6 +3,7 @@ package c15
 import (
 	"math/big"
 	"math/rand/v2"
+	"regexp"
 	"testing"
 
 	"verif/internal/c15/ref"
@@ -96,6 +97,57 @@ func TestExamples(t *testing.T) {
 	} {
 		if got := render(t, c.ctl, c.args...); got != c.want {
 			t.Errorf("%q %v: got %q want %q", c.ctl, c.args, got, c.want)
+		}
+	}
+}
+
+// # is the number of arguments left at the point where it is reached: the v
+// parameters written before it in the same directive have taken theirs.
+func TestHashAfterV(t *testing.T) {
+	for _, c := range []struct {
+		ctl  string
+		args []ref.Val
+		want string
+	}{
+		{"~v,,,#:D", []ref.Val{iv(12), iv(1234567)}, "1,2,3,4,5,6,7"},
+		{"~v,#A|", []ref.Val{iv(2), iv(7), yv("y"), yv("z")}, "7   |"},
+		{"~@{~v,,,#:X ~}", []ref.Val{iv(0), iv(65535), iv(0), iv(255)}, "f,fff f,f "},
+		{"~v,v,#@A|", []ref.Val{iv(1), iv(1), sv("q")}, " \"q\"|"},
+		{"~#,v,#d|", []ref.Val{cv('.'), iv(5)}, ".5|"}, // mincol 2, then padchar, then a comma character that is an integer: not reached
+	} {
+		s, _, err := ref.Render(c.ctl, c.args, fakePrinter{}, ref.Opts{})
+		if c.ctl == "~#,v,#d|" {
+			if err == nil {
+				t.Fatalf("%q: a # in a character slot must not be rendered, got %q", c.ctl, s)
+			}
+			continue
+		}
+		if err != nil || s != c.want {
+			t.Fatalf("%q: got %q %v, want %q", c.ctl, s, err, c.want)
+		}
+	}
+}
+
+// the parameter-mixture block holds every kind of every slot, and v before #.
+func TestMixBlock(t *testing.T) {
+	if len(mixProbes) < 15000 {
+		t.Fatalf("mix block has %d cases", len(mixProbes))
+	}
+	seen := map[string]bool{}
+	for _, p := range append(append([]mixProbe{}, mixProbes...), mixProbesThorough...) {
+		seen[p.ctl+"\x00"+showArgs(p.args)] = true
+	}
+	for _, want := range []string{`^<~v,#:?@?[as]>\|`, `^<~v,,,#:@?[dbox]>\|`, `^<~v,v,#:?@?[as]>\|`, `^~\{<~v,v,v,#:@?[dbox]>`, `^~\[k~;<~#,v,#,v:?@?[as]>`} {
+		re := regexp.MustCompile(want)
+		found := false
+		for k := range seen {
+			if re.MatchString(k) {
+				found = true
+				break
+			}
+		}
+		if !found {
+			t.Errorf("no case matching %s", want)
 		}
 	}
 }
